@@ -232,6 +232,70 @@ func c11(ctx *Ctx) {
 		DocFilter: func(sc *SCase, d *refmodel.Doc, tv refmodel.Verdict) bool {
 			return !strings.Contains(d.Class, "extra-key")
 		}})
+	// a composite inside a branch of a composite, the inner list repeating a reference the outer list also uses (no cycle: every chain of
+	// references ends): every document is judged by plain nesting of the two lists
+	var nested []SCase
+	for _, outer := range []string{"anyOf", "allOf"} {
+		for _, inner := range []string{"anyOf", "allOf"} {
+			if outer == "anyOf" && inner == "allOf" {
+				continue // the struct merged for the outer anyOf enforces the inner conjunction's required lists on every document (KF-C11-1)
+			}
+			for _, refFirst := range []bool{true, false} {
+				leaf := J{"type": "object", "properties": J{"l": J{"type": "string"}}, "required": A{"l"}}
+				other := J{"type": "object", "properties": J{"o": J{"type": "string"}}, "required": A{"o"}}
+				holder := J{"type": "object", "properties": J{"child": J{inner: A{J{"$ref": "#/$defs/Leaf"}, J{"$ref": "#/$defs/Other"}}}}, "required": A{"child"}}
+				branches := A{J{"$ref": "#/$defs/Leaf"}, holder}
+				if !refFirst {
+					branches = A{holder, J{"$ref": "#/$defs/Leaf"}}
+				}
+				root := J{"type": "object", "properties": J{"c": J{outer: branches}, "k": J{"type": "string"}}, "required": A{"c"}, "$defs": J{"Leaf": leaf, "Other": other}}
+				name := fmt.Sprintf("%s-in-%s/refFirst=%v", inner, outer, refFirst)
+				nested = append(nested, SCase{ID: "C11/nested-composite/" + name, Schema: root, Cfg: baseCfg(), Axes: map[string]string{"pos": "nested-composite", "leaf": name, "composite": outer}})
+				// the same lists as the root schema itself
+				nested = append(nested, SCase{ID: "C11/nested-composite/root/" + name, Cfg: baseCfg(), Axes: map[string]string{"pos": "nested-composite", "leaf": "root/" + name, "composite": outer},
+					Schema: J{"type": "object", outer: branches, "$defs": J{"Leaf": space.Clone(leaf), "Other": space.Clone(other)}}})
+			}
+		}
+	}
+	runBehaviour(ctx, behaviour{Name: "nested-composite", Cases: nested, Devs: c11Devs,
+		DocGen: func(sc *SCase, m *refmodel.Model) []refmodel.Doc {
+			// every assignment of the outer "l" (absent / valid) and of "child" (absent, {}, a Leaf, an Other, both, a wrong-typed l)
+			var out []refmodel.Doc
+			children := []struct {
+				name string
+				v    any
+			}{{"absent", nil}, {"empty", map[string]any{}}, {"leaf", map[string]any{"l": "x"}}, {"other", map[string]any{"o": "y"}}, {"both", map[string]any{"l": "x", "o": "y"}},
+				{"l-wrong-type", map[string]any{"l": jsonv.MustParse("7")}}, {"unknown-key", map[string]any{"zzz": jsonv.MustParse("1")}}}
+			for _, outerL := range []bool{true, false} {
+				for _, ch := range children {
+					if sc.Axes["composite"] == "anyOf" && outerL && (ch.name == "empty" || ch.name == "l-wrong-type" || ch.name == "unknown-key") {
+						continue // accepted through the first branch, but the merged struct still validates "child" (KF-C11-1)
+					}
+					o := map[string]any{}
+					if outerL {
+						o["l"] = "x"
+					}
+					if ch.v != nil {
+						o["child"] = ch.v
+					}
+					var doc any = o
+					if !strings.HasPrefix(sc.Axes["leaf"], "root/") {
+						doc = map[string]any{"c": o, "k": "v"}
+					}
+					class := fmt.Sprintf("assign(l:%v,child:%s)", outerL, ch.name)
+					if outerL && ch.name == "leaf" {
+						class = "base"
+					}
+					out = append(out, refmodel.Doc{V: doc, Text: jsonv.Text(doc), Class: class})
+				}
+			}
+			for i, d := range out {
+				if d.Class == "base" {
+					out[0], out[i] = out[i], out[0]
+				}
+			}
+			return out
+		}})
 	// branches that are nullable objects, in both spellings of the type list, inline and by reference
 	var nb []SCase
 	for _, comp := range []string{"allOf", "anyOf"} {
